@@ -242,6 +242,13 @@ pub struct TraceEv {
 
 thread_local! {
     pub static TRACE: RefCell<Vec<TraceEv>> = const { RefCell::new(Vec::new()) };
+    /// `gas_used` of every delivered Reply: not part of any model comparison (the properties do not speak
+    /// about it), but part of the determinism transcripts
+    pub static REPLY_GAS: RefCell<Vec<u64>> = const { RefCell::new(Vec::new()) };
+}
+
+pub fn take_reply_gas() -> Vec<u64> {
+    REPLY_GAS.with(|t| std::mem::take(&mut *t.borrow_mut()))
 }
 
 pub fn take_trace() -> Vec<TraceEv> {
@@ -275,8 +282,8 @@ fn run_probe<Q: CustomQuery>(deps: &Deps<Q>, env: &Env, p: &Probe) -> String {
             deps.querier.query::<SupplyResponse>(&QueryRequest::Bank(BankQuery::Supply { denom: denom.clone() })).map(|r| (r.amount.denom, r.amount.amount.u128())),
         ),
         Probe::WasmRaw { addr, key } => show(deps.querier.query_wasm_raw(addr.clone(), key.to_vec()).map(|o| o.map(|v| crate::core::hex(&v)))),
-        Probe::WasmSmart { addr } => show(deps.querier.query_wasm_smart::<Vec<(Binary, Binary)>>(addr.clone(), &PuppetQuery::Dump {}).map(|v| {
-            v.into_iter().map(|(k, v)| format!("{}={}", crate::core::hex(&k), crate::core::hex(&v))).collect::<Vec<_>>()
+        Probe::WasmSmart { addr } => show(deps.querier.query_wasm_smart::<(u32, Vec<(Binary, Binary)>)>(addr.clone(), &PuppetQuery::Dump {}).map(|(tag, v)| {
+            (tag, v.into_iter().map(|(k, v)| format!("{}={}", crate::core::hex(&k), crate::core::hex(&v))).collect::<Vec<_>>())
         })),
         Probe::ContractInfo { addr } => show(
             deps.querier
@@ -382,6 +389,7 @@ fn apply_writes(storage: &mut dyn Storage, writes: &[(Binary, Option<Binary>)]) 
 }
 
 fn reply_script(reply: &Reply) -> (Script, (u64, Vec<u8>, ReplySeen)) {
+    REPLY_GAS.with(|g| g.borrow_mut().push(reply.gas_used));
     let seen = match &reply.result {
         #[allow(deprecated)]
         SubMsgResult::Ok(r) => ReplySeen::Ok { events: r.events.clone(), data: r.data.clone() },
@@ -406,9 +414,10 @@ pub enum PuppetQuery {
     Dump {},
 }
 
-fn do_query(storage: &dyn Storage) -> StdResult<Binary> {
+/// The smart query answers with the tag of the code that serves it and the contract's storage.
+fn do_query(storage: &dyn Storage, code_tag: u32) -> StdResult<Binary> {
     let v: Vec<(Binary, Binary)> = storage.range(None, None, Order::Ascending).map(|(k, v)| (Binary::from(k), Binary::from(v))).collect();
-    to_json_binary(&v)
+    to_json_binary(&(code_tag, v))
 }
 
 // --- flavour 1: implements the public `Contract` trait directly, chain's custom types -----------
@@ -432,7 +441,7 @@ impl Contract<PMsg, PQuery> for Puppet {
         Ok(interpret::<PMsg, PQuery>(deps, env, Entry::Instantiate, self.code_tag, Some(info.sender.to_string()), info.funds, &s, None)?)
     }
     fn query(&self, deps: Deps<PQuery>, _env: Env, _msg: Vec<u8>) -> AnyResult<Binary> {
-        Ok(do_query(deps.storage)?)
+        Ok(do_query(deps.storage, self.code_tag)?)
     }
     fn sudo(&self, deps: DepsMut<PQuery>, env: Env, msg: Vec<u8>) -> AnyResult<Response<PMsg>> {
         let s = parse(&msg)?;
@@ -462,7 +471,7 @@ fn e_instantiate(deps: DepsMut, env: Env, info: MessageInfo, s: Script) -> StdRe
     interpret::<Empty, Empty>(deps, env, Entry::Instantiate, LIFTED_TAG, Some(info.sender.to_string()), info.funds, &s, None)
 }
 fn e_query(deps: Deps, _env: Env, _m: PuppetQuery) -> StdResult<Binary> {
-    do_query(deps.storage)
+    do_query(deps.storage, LIFTED_TAG)
 }
 fn e_sudo(deps: DepsMut, env: Env, s: Script) -> StdResult<Response> {
     interpret::<Empty, Empty>(deps, env, Entry::Sudo, LIFTED_TAG, None, vec![], &s, None)
